@@ -1,5 +1,5 @@
 (* C10 - DWT synthesis equals PyWavelets on arbitrary coefficient pyramids (one level, row pass).  Statements only. *)
-From PW Require Import Base.Ops Base.Sum Base.Sig Base.Tensor Model.Dwt Spec.Line Proofs.DwtNF Proofs.LineTheory Proofs.SfbNF Proofs.C10Proofs Proofs.C10Proofs2D Proofs.Per2D.
+From PW Require Import Base.Ops Base.Sum Base.Sig Base.Tensor Model.Dwt Spec.Line Proofs.DwtNF Proofs.LineTheory Proofs.SfbNF Proofs.C10Proofs Proofs.C10Proofs2D Proofs.Per2D Proofs.MultiSpecInv.
 
 (* zero / symmetric / reflect / periodic: for ANY lo, hi of equal shape (not only transforms of a signal) the model of
    sfb1d returns PyWavelets' idwt closed form  sum_k lo[k] rec_lo[m+L-2-2k] + hi[k] rec_hi[m+L-2-2k], length 2n-L+2 *)
@@ -51,6 +51,53 @@ Theorem C10_level_2d_per :
                           (fun p q => tf highs n (3*c+1) p q) (fun p q => tf highs n (3*c+2) p q) i j).
 Proof. exact @SFB2D_pywt_per. Qed.
 Print Assumptions C10_level_2d_per.
+
+(* ---- every J, ANY pyramid whose shapes chain: the level loops return waverec / waverec2 ----
+   waverec_rel lev x0 hs y (hs coarsest first, as the loop consumes them): each step z = lev (running lowpass) (detail level);
+   invlevel1d / invlevel2d (Proofs/MultiSpecInv.v): the step is PyWavelets' closed form (syn / pywt_idwt2) of the running lowpass -
+   whose extra last row/column, if any, is never read - and the detail level; a None level is a level of zeros of the running
+   lowpass' OWN size (so one sample longer than `zeros on the signal's extent' when the lowpass is oversize: KF-NONE-OVERSIZE);
+   chain1 / chain2: the shape conditions under which PyWavelets accepts the pyramid *)
+Theorem C10_multilevel_1d :
+  forall (R:Type) (Op:Ops R) (Rth:RingOk Op) L g0 g1 mode, nonper_mode mode -> 2 <= L ->
+  forall (hs:list (option (@ten R))) (x0:@ten R), 1 <= tH x0 -> 1 <= tW x0 ->
+  chain1 (fun n => 1 <= n /\ 1 <= 2*n - L + 2) (fun n => 2*n - L + 2) x0 (tW x0) hs ->
+  is_ok (DWT1DInverse_rev Op x0 hs L g0 g1 mode)
+    (waverec_rel (invlevel1d Op (fun n lo hi m => syn Op L n g0 g1 lo hi m) (fun n => 2*n - L + 2)) x0 hs).
+Proof. exact @waverec_1d. Qed.
+Print Assumptions C10_multilevel_1d.
+Theorem C10_multilevel_1d_per :
+  forall (R:Type) (Op:Ops R) (Rth:RingOk Op) L g0 g1, 2 <= L -> L mod 2 = 0 ->
+  forall (hs:list (option (@ten R))) (x0:@ten R), 1 <= tH x0 -> 1 <= tW x0 ->
+  chain1 (fun n => 1 <= n /\ L - 2 <= 2*n) (fun n => 2*n) x0 (tW x0) hs ->
+  is_ok (DWT1DInverse_rev Op x0 hs L g0 g1 M_PER)
+    (waverec_rel (invlevel1d Op (fun n lo hi m => syn_per Op L n g0 g1 lo hi m) (fun n => 2*n)) x0 hs).
+Proof. exact @waverec_1d_per. Qed.
+Print Assumptions C10_multilevel_1d_per.
+Theorem C10_multilevel_2d :
+  forall (R:Type) (Op:Ops R) (Rth:RingOk Op) Lr gr0 gr1 Lc gc0 gc1 mode, nonper_mode mode -> 2 <= Lr -> 2 <= Lc ->
+  forall (hs:list (option (@ten R))) (ll:@ten R), 0 < tC ll -> 1 <= tH ll -> 1 <= tW ll ->
+  chain2 (fun n => 1 <= n /\ 1 <= 2*n - Lc + 2) (fun n => 1 <= n /\ 1 <= 2*n - Lr + 2) (fun n => 2*n - Lc + 2) (fun n => 2*n - Lr + 2) ll (tH ll) (tW ll) hs ->
+  is_ok (DWTInverse_rev Op ll hs Lr gr0 gr1 Lc gc0 gc1 mode)
+    (waverec_rel (invlevel2d Op (fun hh ww a b c d i j => pywt_idwt2 Op Lr gr0 gr1 Lc gc0 gc1 hh ww a b c d i j)
+                             (fun n => 2*n - Lc + 2) (fun n => 2*n - Lr + 2)) ll hs).
+Proof. exact @waverec_2d. Qed.
+Print Assumptions C10_multilevel_2d.
+Theorem C10_multilevel_2d_per :
+  forall (R:Type) (Op:Ops R) (Rth:RingOk Op) Lr gr0 gr1 Lc gc0 gc1, 2 <= Lr -> Lr mod 2 = 0 -> 2 <= Lc -> Lc mod 2 = 0 ->
+  forall (hs:list (option (@ten R))) (ll:@ten R), 0 < tC ll -> 1 <= tH ll -> 1 <= tW ll ->
+  chain2 (fun n => 1 <= n /\ Lc - 2 <= 2*n) (fun n => 1 <= n /\ Lr - 2 <= 2*n) (fun n => 2*n) (fun n => 2*n) ll (tH ll) (tW ll) hs ->
+  is_ok (DWTInverse_rev Op ll hs Lr gr0 gr1 Lc gc0 gc1 M_PER)
+    (waverec_rel (invlevel2d Op (fun hh ww a b c d i j => pywt_idwt2_per Op Lr gr0 gr1 Lc gc0 gc1 hh ww a b c d i j)
+                             (fun n => 2*n) (fun n => 2*n)) ll hs).
+Proof. exact @waverec_2d_per. Qed.
+Print Assumptions C10_multilevel_2d_per.
+
+(* non-vacuity: a 3-level chain with an oversize lowpass (trim) and a None level, L = 4 *)
+Example C10_chain_example :
+  let t w := mkT 1 1 1 w (fun _ _ _ j => j) : @ten Z in
+  chain1 (fun n => 1 <= n /\ 1 <= 2*n - 4 + 2) (fun n => 2*n - 4 + 2) (t 4) 4 [Some (t 4); None; Some (t 9)].
+Proof. cbn. repeat split; try lia; try (left; reflexivity); try (right; reflexivity). Qed.
 
 (* what the code computes in periodization for EVERY size (characterisation, also inside the known finding) *)
 Theorem C10_level_per_row_code :
